@@ -59,6 +59,16 @@ CLAIMED = {
    note="PARTIAL for opaque kinds (nested messages, JSON objects, identity-assurance specials: ~10 % of parameters): real round-trip only where "
         "generated; JSON text codec and JWS/JWE idealised; negative integers and message-level multi-parameter interactions beyond the pointwise law not modelled.",
    technique="Lean 4 proof (generic round-trip laws + kernel-decided obligations over translator-regenerated schema tables) + cell correspondence", ref="6 C10"),
+ "C11": dict(
+   text="Lean theorems: verify ok implies every required parameter present and non-empty and every enumerated value inside its set (generic "
+        "in the schema); a subclass whose overrides all chain reaches the generic check (chain_reaches_generic) with a proved counter-example "
+        "for a non-chaining override; typed slots store the value itself or one of three lossless coercions, everything else is rejected "
+        "(typed_slot_lossless, wrong_type_rejected). The verify-override chain of every Message subclass is regenerated from the source (AST) "
+        "on every run and the kernel re-decides that exactly the two known classes do not chain. Tie: exhaustive cell check on the real "
+        "classes (each required parameter removed/emptied, each enumerated parameter outside its set, each typed parameter given every other "
+        "JSON type) + correspondence of the generic verify and of _add_value with the model.",
+   note="Bodies of the class-specific cross-field rules are not modelled (exercised by the oracle on the real code only); embedded signed objects are covered by C16/C08.",
+   technique="Lean 4 proof (decision logic + kernel-decided obligation over the regenerated verify-chain table) + exhaustive cell correspondence", ref="6 C11"),
 }
 NOT_YET = {}
 ALL = [f"C{i:02d}" for i in range(1, 21)]
